@@ -166,6 +166,18 @@ def run(ctx):
                 lk2 = [bi for bi, t in mb.calls() if call_matches(t, ['re:RwLock.*::read$']) and '.DbInner.trees' in lib.receiver_fields(mb, t, 0)]
                 loops = [lp for lp in lib.for_loops_over(mb, '.CommitChangeSet.indexed')
                          if any(x in mb.reachable_from([lp['some']], removed={lp['head']}) for x in ums)]      # the loop the marks are made in
+                if not loops and lk2 and lib.ok_return_unreachable_avoiding(mb, lk2, cut_errors=False) is None:
+                    # the marking of ONE column set was moved into a helper that always scans the registry: the loop over the column
+                    # sets is in its caller, a call of the helper stands for the scan
+                    for cn in sorted(F.callers(mb.path)):
+                        cb = F.body(cn)
+                        if cb is None:
+                            continue
+                        cs = [bi for bi in cb.call_sites(mb.path) if bi in cb.normal_blocks()]
+                        lps = [lp for lp in lib.for_loops_over(cb, '.CommitChangeSet.indexed') if any(x in cb.reachable_from([lp['some']], removed={lp['head']}) for x in cs)]
+                        if lps:
+                            mb, ums, lk2, loops = cb, cs, cs, lps
+                            break
                 loops = [lp for lp in loops if not any(l2 is not lp and lp['head'] in mb.reachable_from([l2['some']], removed={l2['head']}) for l2 in loops)]   # outermost
                 reach = lib.sites_reaching(cc, [mb.path])
                 lib.must_pass(ctx, '1h1 every-commit-reaches-the-marking', cc, reach, 'every accepted change set is handed to the function that computes the marks')
@@ -191,12 +203,18 @@ def run(ctx):
                 calls, fields, binops = lib.guard_influences(mb, s2)
                 calls = set(calls) | set(c for c in lib.shallow_calls(F, calls, owner=mb.path))
                 ctx.ob('1h2 marking-decided-by-reader-lock', 'K3-guard', mb.path, 'a tree is marked as used depending on RwLock::is_locked of its registered reader', any(re.search(r'RwLock.*::is_locked$', c) for c in calls), '')
-        inc = [bi for bi, t in cc.calls() if bi in cc.normal_blocks() and call_matches(t, COUNTER_MUT) and '.Trees.to_dereference' in lib.receiver_fields(cc, t, 0)]
-        ctx.ob('4b one-increment-per-DereferenceTree', 'anchor', cc.path, 'commit_changes increments to_dereference', len(inc) >= 1, str(inc))
-        for s in inc:
-            lib.held_at(ctx, '4c increment-under-trees-write-lock', cc, s, '.DbInner.trees', 'the counter is changed with the trees write lock held', mode='write')
-        cf = [bi for bi in cc.normal_blocks() for s in cc.blocks[bi]['s'] if s['k'] == 'assign' and '.CommitChangeSet.check_for_deferral' in s['p'][1:]]
-        lib.precedes(ctx, '4d deferral-check-requested', cc, inc, cf, 'a commit that increments the counter also asks for the deferral check')
+        # (the DereferenceTree arm may live in a helper of commit_changes: the sites are looked for in its family)
+        ninc = 0
+        for fb in lib.family(F, cc.path):
+            inc = [bi for bi, t in fb.calls() if bi in fb.normal_blocks() and call_matches(t, COUNTER_MUT) and '.Trees.to_dereference' in lib.receiver_fields(fb, t, 0)]
+            if not inc:
+                continue
+            ninc += len(inc)
+            for s in inc:
+                lib.held_at(ctx, '4c increment-under-trees-write-lock', fb, s, '.DbInner.trees', 'the counter is changed with the trees write lock held', mode='write')
+            cf = [bi for bi in fb.normal_blocks() for s in fb.blocks[bi]['s'] if s['k'] == 'assign' and '.CommitChangeSet.check_for_deferral' in s['p'][1:]]
+            lib.precedes(ctx, '4d deferral-check-requested', fb, inc, cf, 'a commit that increments the counter also asks for the deferral check')
+        ctx.ob('4b one-increment-per-DereferenceTree', 'anchor', cc.path, 'commit_changes (or a helper of it) increments to_dereference', ninc >= 1, str(ninc))
     # 2. the walk holds the tree write lock
     wpl = ctx.body('db::IndexedChangeSet::write_plan')
     if wpl:
@@ -223,8 +241,8 @@ def run(ctx):
               and t['a'] and '.IndexedChangeSet.used_trees' in lib.receiver_fields(b, t, 0)]
     ctx.ob('1m0 used-trees-mark-sites', 'anchor', 'db::DbInner', 'the site that marks the trees a commit may share nodes with was found', len(msites) >= 1, str([(b.path, x) for b, x in msites]))
     for b, x in msites:
-        lib.held_at(ctx, '1m used-trees-marked-under-the-queue-lock %s' % lib.strip_closures(b.path), b, x, '.DbInner.commit_queue',
-                    'the used_trees marks of a commit are computed with the commit queue locked (between the look at to_dereference and the push onto the queue no removal can be committed)')
+        lib.held_at_lifted(ctx, '1m used-trees-marked-under-the-queue-lock %s' % lib.strip_closures(b.path), F, b, x, '.DbInner.commit_queue',
+                           'the used_trees marks of a commit are computed with the commit queue locked (between the look at to_dereference and the push onto the queue no removal can be committed)')
     # whatever the state of the tree's reader (locked, unlocked, no live handle any more), a removal also waits for queued commits that
     # marked the tree: the queue scan is reached for every DereferenceChildren change unless the decision to defer was already taken.
     # The marks were set while a reader was locked; the reader may be long gone when the log worker gets to the removal.
